@@ -7,6 +7,7 @@ mod prm;
 mod diag;
 mod phyrx;
 mod las;
+mod bus;
 mod util;
 
 use std::io::{BufRead, Write};
@@ -21,6 +22,7 @@ const DOMAINS: &[(&str, GenFn, RunFn)] = &[
     ("diag", diag::gen, diag::run_case),
     ("phyrx", phyrx::gen, phyrx::run_case),
     ("las", las::gen, las::run_case),
+    ("bus", bus::gen, bus::run_case),
 ];
 
 fn main() {
